@@ -408,6 +408,56 @@ func scenStreamOutrunsCall(tr *vtrace.Tracer, kind string) error {
 	return nil
 }
 
+// C09: the context of a streaming call ends while the call is still handing
+// its requests to the senders (node 2's sender is busy) and the replies of
+// node 1 have already filled the call's reply channel, which nobody reads
+// before all requests are enqueued.  The call must end and node 2 must stay usable.
+func scenStreamCtxWhileQueuedFull(tr *vtrace.Tracer, kind string) error {
+	l, err := newLife(tr, EnvOpts{Nodes: 2})
+	if err != nil {
+		return err
+	}
+	defer l.finish()
+	for _, s := range l.e.Servers {
+		s.Auto = func(method string, req *puppet.Req) []puppetsrv.Cmd {
+			if method == "CorrStream" {
+				return []puppetsrv.Cmd{{Kind: "item", Val: 1}, {Kind: "item", Val: 1}, {Kind: "item", Val: 1}, {Kind: "item", Val: 1}, {Kind: "end"}}
+			}
+			return []puppetsrv.Cmd{{Kind: "reply", Val: 1}}
+		}
+	}
+	g := l.gate("SendWait", 2)
+	a := l.call("QC", 2, false, false)
+	if !g.Arrived(SyncTimeout) {
+		g.Open()
+		return fmt.Errorf("sender of node 2 did not reach SendWait")
+	}
+	from := tr.Len()
+	b := l.call("CorrStream", 2, false, false)
+	// node 1 has been handed three items (2 buffered, 1 blocking) and the call waits for node 2's sender
+	n := 0
+	full := tr.Await(from, SyncTimeout, func(e vtrace.Event) bool {
+		if e.Ev == "Route" && e.Tok == b.tok && e.Node == 1 {
+			n++
+		}
+		return n >= 3
+	}) >= 0
+	queued := l.awaitEv(from, SyncTimeout, "HandOffWait", 2)
+	if !full || !queued {
+		g.Open()
+		return fmt.Errorf("reply channel not full (%v) or call not queued (%v)", full, queued)
+	}
+	time.Sleep(5 * time.Millisecond)
+	l.endCtx(b)
+	l.wait(b, QuietT)
+	g.Open()
+	l.wait(a, SyncTimeout)
+	p := l.call("QC", 2, true, false)
+	l.wait(p, QuietT)
+	l.quiescent()
+	return nil
+}
+
 // C09/C18: TLC's counterexample to NoResidue (SenderReconnectStrandsPending):
 // a request is pending on a stream; the stream is cancelled (another call's
 // context ends while being written) while the receiver is between two reads;
@@ -596,6 +646,57 @@ func scenRestart(tr *vtrace.Tracer, kind string) error {
 	// gRPC's own redial uses the same back-off configuration: let its timer fire
 	// now (environment) and wait until the transport is ready again; the
 	// receiver goroutine keeps sleeping in its own back-off
+	ready := false
+	for i := 0; i < 300 && !ready; i++ {
+		ready = gorums.VerifRedialNow(l.e.Node(1).RawNode)
+		time.Sleep(10 * time.Millisecond)
+	}
+	if !ready {
+		return fmt.Errorf("transport did not become ready")
+	}
+	p := l.call(kind, 1, true, false)
+	l.wait(p, QuietT)
+	l.quiescent()
+	return nil
+}
+
+// C10: a reconnect attempt fails (the server is still down) while the receiver
+// goroutine is between two reads; the receiver goes on, the server comes back
+// and the node must be usable again.
+func scenFailedReconnectBetweenReads(tr *vtrace.Tracer, kind string) error {
+	l, err := newLife(tr, EnvOpts{Nodes: 1, MgrOpts: []gorums.ManagerOption{gorums.WithBackoff(fastBackoff)}})
+	if err != nil {
+		return err
+	}
+	defer l.finish()
+	// park the receiver between two reads
+	gr := l.gate("RcvLoopEnd", 1)
+	a := l.call("Rpc", 1, false, false)
+	if !gr.Arrived(SyncTimeout) {
+		gr.Open()
+		return fmt.Errorf("receiver did not reach the end of its loop")
+	}
+	l.wait(a, SyncTimeout)
+	l.e.Server(1).Stop()
+	// the sender notices the broken stream and its single reconnect attempt fails
+	from := tr.Len()
+	failed := false
+	for i := 0; i < 20 && !failed; i++ {
+		x := l.call("Rpc", 1, false, false)
+		l.wait(x, 100*time.Millisecond)
+		failed = tr.Await(from, 50*time.Millisecond, func(e vtrace.Event) bool {
+			return e.Ev == "ReconNewStream" && e.Node == 1 && !e.Bool("ok")
+		}) >= 0
+	}
+	if !failed {
+		gr.Open()
+		return fmt.Errorf("no failed reconnect attempt")
+	}
+	gr.Open() // the receiver goes on to its next read
+	time.Sleep(50 * time.Millisecond)
+	if err := l.e.Server(1).Start(); err != nil {
+		return err
+	}
 	ready := false
 	for i := 0; i < 300 && !ready; i++ {
 		ready = gorums.VerifRedialNow(l.e.Node(1).RawNode)
@@ -859,6 +960,7 @@ var LifeScenarios = map[string][]LifeScenario{
 		{Name: "stale-broken-read", Run: scenStaleBrokenRead},
 		{Name: "stream-outruns-call", Kind: "CorrStream", Run: scenStreamOutrunsCall},
 		{Name: "stream-replaced", Run: scenStreamReplaced},
+		{Name: "stream-ctx-while-queued-full", Kind: "CorrStream", Run: scenStreamCtxWhileQueuedFull},
 		{Name: "ctx-before-send", Run: scenCtxBeforeSend},
 		{Name: "ctx-while-written", Run: scenCtxWhileWritten},
 	},
@@ -873,6 +975,7 @@ var LifeScenarios = map[string][]LifeScenario{
 	"C10": {
 		{Name: "restart", Run: scenRestart},
 		{Name: "down-at-creation", Run: scenDownAtCreation},
+		{Name: "failed-reconnect-between-reads", Run: scenFailedReconnectBetweenReads},
 		{Name: "metadata", Run: scenMetadata},
 	},
 	"C12": {
